@@ -138,6 +138,8 @@ class CContext:
                 self.error("Type is incomplete, size unknown", typ)
             if typ.fields:
                 size = max(self.sizeof(part.typ) for part in typ.fields)
+                # Round up to a multiple of the alignment:
+                size += required_padding(size, self.alignment(typ))
             else:
                 size = 0
         elif isinstance(typ, types.EnumType):
@@ -231,9 +233,9 @@ class CContext:
             if kind == "struct":
                 bit_offset += bitsize
 
-        # TODO: should we take care here of maximum alignment as well?
-        # Finally align at 8 bits:
-        bit_offset += required_padding(bit_offset, 8)
+        # Finally round the size up to a multiple of the alignment, such
+        # that all elements of an array of this type are aligned:
+        bit_offset += required_padding(bit_offset, 8 * self.alignment(typ))
         assert bit_offset % 8 == 0
         byte_size = bit_offset // 8
         return byte_size, bit_offsets
